@@ -33,7 +33,7 @@ from gverif.props import c20_worker
 BASELINE = "force"
 REGRESSION = "orig"
 TLC_HEAP = "1g"
-ALL_REFS = ["v1", "feat/x", "feat-x", "x", "bad", "v0", "nope", "HEAD", "HEAD~1", "refs/tags/v1"]
+ALL_REFS = ["v1", "feat/x", "feat-x", "x", "bad", "v0", "nope", "HEAD", "HEAD~1", "refs/tags/v1", "side/y"]
 SAFE = ["LoadWT", "LatestTag", "RepoRoot", "AssertRepo", "MkTmp", "WorktreeAdd", "Find", "Analyse", "ExtensionHook", "ResolveAliases", "Return", "RmTmp"]
 FINALLY = ["WorktreeRemove", "Prune", "BranchDelete"]
 CLEAN_AN = ["static", "inspect-off", "inspect-ignored"]
@@ -47,7 +47,7 @@ def tset(xs) -> str:
 
 
 def consts(**kw) -> dict:
-    c = dict(VARIANT=BASELINE, OPS=["load"], REFS1=ALL_REFS, REFS2=["HEAD"], ANALYSES=CLEAN_AN, STATUS=["clean", "dirty"], EXTATS=[0, 1],
+    c = dict(DELMODE="-D", VARIANT=BASELINE, OPS=["load"], REFS1=ALL_REFS, REFS2=["HEAD"], ANALYSES=CLEAN_AN, STATUS=["clean", "dirty"], EXTATS=[0, 1],
              INTRAT=SAFE, MAXINTR=1, NOTREPO=False, LATEST=False, NOTAGS=False)
     c.update(kw)
     return {k: (tset(v) if isinstance(v, list) else ("TRUE" if v is True else "FALSE" if v is False else v)) for k, v in c.items()}
@@ -76,7 +76,7 @@ def domains(tier: str) -> list:
         ]
     d = [
         ("clean-load", consts(NOTREPO=True), "hold", True),
-        ("clean-check", consts(OPS=["check"], REFS1=["v1", "feat/x", "x", "bad", "v0", "nope", "HEAD~1"], REFS2=["HEAD", "feat-x", "nope", "WT"], STATUS=["clean"],
+        ("clean-check", consts(OPS=["check"], REFS1=["v1", "feat/x", "x", "bad", "v0", "nope", "HEAD~1", "side/y"], REFS2=["HEAD", "feat-x", "nope", "WT", "side/y"], STATUS=["clean"],
                                ANALYSES=["static", "inspect-off"], EXTATS=[0, 1, 2], LATEST=True, NOTAGS=True), "hold", True),
         ("clean-check-userdirty", consts(OPS=["check"], REFS1=["v1", "bad"], REFS2=["HEAD", "WT"], STATUS=["dirty"], ANALYSES=["static", "inspect-ignored"], EXTATS=[0, 2],
                                          LATEST=True), "hold", True),
@@ -93,6 +93,10 @@ def domains(tier: str) -> list:
         # __pycache__; if the real code ever behaves like this again the replay reports a VIOLATION
         # (finding C20-untracked-files-block-worktree-remove is "fixed" and suppresses nothing)
         regression,
+        # regression domain (model only): `git branch -d` instead of `-D` - refused for refs that are not merged into
+        # the user's HEAD (diverging branch side/y): the temporary branch leaks
+        ("regression-branch-d", consts(DELMODE="-d", OPS=["load", "check"], REFS1=["v1", "side/y"], REFS2=["HEAD", "side/y"], ANALYSES=["static"], STATUS=["clean"],
+                                       EXTATS=[0]), "leak", False),
     ]
     if not q:
         # two interrupts per behaviour (the second one strikes during the unwinding caused by the first)
